@@ -158,4 +158,11 @@ PROPS = {
             R("h23", "c09p", "TestC09_Pubsub", (40, 1, 600), (1500, 4, 3000)),
         ],
     },
+    "C16": {
+        "level": "exploration",
+        "units": [
+            R("h23", "c16", "TestC16_Histories", (3000, 8, 1500), (200000, 16, 8000)),
+            R("h23", "c16", "TestC16_Topic", (10, 1, 900), (300, 4, 3000)),
+        ],
+    },
 }
